@@ -8,12 +8,12 @@ CHECKS = {
          "Generated-input search: millions of inputs constructed on and around f64 rounding boundaries (exact midpoints, continued-fraction closest approaches, cut-off positions, seams, range ends, long tails), parsed in all 8 configurations and judged two-sidedly by an independent exact oracle. Exploration, not proof: the f64 input space cannot be enumerated, so cases are placed on the algorithms' decision boundaries.",
          "Trusts the harness's own Nat arithmetic and midpoint oracle (self-tested every run against 16 820 golden vectors from the repository's own data, std's parser, and a second arithmetic formulation). Runs natively on x86_64; the crate's 32-bit-limb code is exercised by a Miri stage (--target i686) on 48 (quick) / 1200 (thorough) generated big-integer-path inputs with oracle verdicts.",
          "DESIGN.md section 2, C01", "mlv supervisor+libfuzzer"),
- "C02": ("property-based testing (proptest) with boundary-constructed generators + exact decimal-midpoint oracle; double-rounding traps; f32 boundary sweep by enumeration in the thorough tier",
+ "C02": ("[release and debug-assertion (dbgchk) builds of the harness run the same cases] property-based testing (proptest) with boundary-constructed generators + exact decimal-midpoint oracle; double-rounding traps; f32 boundary sweep by enumeration in the thorough tier",
          "Same engine as C01 for f32 (f32 constants), plus the double-rounding trap family; the thorough tier enumerates f32 rounding boundaries.",
-         "Same trusted base as C01 (incl. the 32-bit-limb Miri stage, f32 inputs).", "DESIGN.md section 2, C02", "mlv"),
- "C03": ("round-trip property: generated floats + enumerated f32 bit patterns, five renderings each (shortest and 9/17 digits in scientific and in positional layout, exact expansion), parse back in all configurations",
+         "Same trusted base as C01 (incl. the 32-bit-limb Miri stage, f32 inputs).", "DESIGN.md section 2, C02", "mlv supervisor"),
+ "C03": ("[release and debug-assertion (dbgchk) builds of the harness run the same cases] round-trip property: generated floats + enumerated f32 bit patterns, five renderings each (shortest and 9/17 digits in scientific and in positional layout, exact expansion), parse back in all configurations",
          "Round-trip oracle parse(render(x)) == x; renderings validated by the exact oracle before use. f32 patterns enumerated (residue class in quick, all 2^31-2^23 in thorough); f64 sampled from structured classes.",
-         "std's formatter only proposes renderings (validated); exact expansions from the harness's Nat.", "DESIGN.md section 2, C03", "mlv"),
+         "std's formatter only proposes renderings (validated); exact expansions from the harness's Nat.", "DESIGN.md section 2, C03", "mlv supervisor"),
  "C04": ("generated and grid-enumerated valid inputs under catch_unwind in two separately compiled builds (release; debug-assertions + overflow-checks + UB-precondition checks), process supervisor attributing aborts to a traced case",
          "Exploration of the panic-freedom contract over a full length x exponent x pattern x layout grid plus generated families that maximise big-integer size, in both builds and all 8 configurations.",
          "A panic site reachable only through Lemire's lo == u64::MAX fallback (a ~2^-73 coincidence) is not reached by generation.", "DESIGN.md section 2, C04", "mlv supervisor"),
@@ -23,9 +23,9 @@ CHECKS = {
  "C06": ("[release and debug-assertion (dbgchk) builds of the harness run the same cases] property-based testing with constructed long tails: deciding digit placed at chosen absolute positions (19-digit cut, MAX_DIGITS cut, chunk edges, 1e3..1e6), expectation by construction and by the exact oracle",
          "Every case has >= 20 significant digits and sits on a rounding boundary; positions sweep every cut-off the code has.",
          "Same oracle as C01.", "DESIGN.md section 2, C06", "mlv supervisor"),
- "C07": ("property-based testing at the range ends: midpoints around 0 / min subnormal / min normal / MAX, zero significands, compensated and uncompensable extreme exponents, interior points of the rounding interval for subnormals of every bit length; exact oracle with the overflow/underflow thresholds built in",
+ "C07": ("[release and debug-assertion (dbgchk) builds of the harness run the same cases] property-based testing at the range ends: midpoints around 0 / min subnormal / min normal / MAX, zero significands, compensated and uncompensable extreme exponents, interior points of the rounding interval for subnormals of every bit length; exact oracle with the overflow/underflow thresholds built in",
          "Exploration concentrated on the IEEE thresholds and on exponent arithmetic at the i32 limits.",
-         "Same oracle as C01 (exponent arithmetic in i64).", "DESIGN.md section 2, C07", "mlv"),
+         "Same oracle as C01 (exponent arithmetic in i64).", "DESIGN.md section 2, C07", "mlv supervisor"),
  "C08": ("coverage-guided fuzzing (libFuzzer target fz_bytes) under AddressSanitizer in two builds (debug assertions on / off) + proptest over hostile byte strings in release and debug-assertion builds under a process supervisor",
          "Memory-safety contract observed through ASan, core's UB-precondition checks and abnormal process exits; outcome classes value / clean panic are both accepted.",
          "UB invisible to ASan, the precondition checks and process exit status is not observed.", "DESIGN.md section 2, C08", "libfuzzer+mlv supervisor"),
@@ -35,9 +35,9 @@ CHECKS = {
  "C10": ("[release and debug-assertion (dbgchk) builds of the harness run the same cases] metamorphic property-based testing: all re-splittings / zero paddings of one digit sequence must parse to identical bits",
          "Groups of representations of one value (splits, leading fraction zeros, trailing integer zeros, appended fraction zeros) compared against the canonical member in all configurations.",
          "Exponents stay clear of i32 saturation so value equality is exact (re-verified).", "DESIGN.md section 2, C10", "mlv supervisor"),
- "C11": ("direct calls of the moderate stage on an enumerated table of continued-fraction closest approaches plus generated (w,q,t), judged by the exact oracle incl. the interval condition for truncated inputs",
+ "C11": ("[release and debug-assertion (dbgchk) builds of the harness run the same cases] direct calls of the moderate stage on an enumerated table of continued-fraction closest approaches plus generated (w,q,t), judged by the exact oracle incl. the interval condition for truncated inputs",
          "Constructed, not sampled: for each decimal exponent and binade the inputs a 64/128-bit approximation is most likely to misjudge; declines are accepted, definite answers must be right.",
-         "Domain: t=true implies 1 <= w <= u64::MAX-1 (caller-established).", "DESIGN.md section 2, C11", "mlv"),
+         "Domain: t=true implies 1 <= w <= u64::MAX-1 (caller-established).", "DESIGN.md section 2, C11", "mlv supervisor"),
  "C12": ("model-based property testing of every big-integer operation against the harness's Nat, operands hovering around the 62-limb capacity, stack and heap back-ends, release and debug-assertion builds; libFuzzer target fz_vec under ASan",
          "Exact-result / reported-overflow rule checked per operation; 'writing outside its buffer' observed by ASan and UB-precondition checks.",
          "Operands are non-zero as the property quantifies; un-normalised operands get the representation-based failure rule. Exponents / shift counts far beyond the capacity (whole u32 range) are applied to the fixed-capacity back-end only and must report failure.", "DESIGN.md section 2, C12", "mlv supervisor+libfuzzer"),
